@@ -6,6 +6,11 @@ ROOT = os.path.dirname(os.path.dirname(os.path.abspath(__file__)))
 
 # property id -> (engine, level category, technique, level text, level note, design ref)
 CHECKS = {
+    "C12": ("SEQ", "model_checking",
+            "explicit-state exploration of all multi-layer operation/fault histories up to a depth bound, executed in killable worker processes, lock-step with a latest-value model",
+            "Every history up to depth 3/4 (quick) and 4/5 (thorough) over put / put_with_ttl / put_to_layer / get / get_from_layer / promote / remove / clear / contains / batch ops / validated put+get / corrupt or delete the disk layer's file, on [Memory(1), Disk] and [Memory(1), Memory(2), Disk] with three promotion strategies and MD5 hooks, runs on the real MultiLayerCacheImpl inside worker processes with a progress watchdog (a call that never returns is a violation, not a stuck run). Oracle: latest-value model across layers, nothing answers after remove/clear/detected corruption, validated reads return only bytes that hash to the key, every call returns.",
+            "Trusted: the latest-value model with its six documented not-alarming decisions (DESIGN Appendix B), the watchdog's hang proof (same untimed futex wait for >=60 ms with a single thread, or 2.5 s without progress confirmed on a second run). Background cleanup tasks are pinned (ten-year intervals, paused clock) and not explored.",
+            "DESIGN.md §4 C12"),
     "C19": ("SEQ+ENUM", "model_checking",
             "explicit-state exploration of builder programs (states merged on the serialized manifest) plus exhaustive file-count x tag-pattern grid, judged by a set model and an independent bit-mask reader",
             "Every install/download builder program up to depth 8 (quick) / 11 (thorough) over 32 operations x 2 tags x 3 file slots from empty and from 7-file pre-states, states merged on the serialized manifest (a complete description of the builder; the hidden name->index map is probed before merging); every file count 0..=70 (thorough: 255/256/257/1023) x 7 tag patterns x 0..=3 tags x 16 formats, followed by add/remove_file at byte boundaries. Oracle: set model for every non-empty tag subset through all query APIs and size totals, and an independent reader written from the format description (MSB-first bit order, anchored on the repository's real CDN fixtures).",
